@@ -2,6 +2,4 @@
 import sys
 sys.path.insert(0, '/verif/probes/C06')
 from _edit import sub
-sub('modeling/common.py', """    model = model.replace(name=new_name)
-    return model""", """    model._name = new_name
-    return model""")
+sub('modeling/common.py', "    'run2'\n\n    \"\"\"\n    model = model.replace(name=new_name)\n    return model", "    'run2'\n\n    \"\"\"\n    model._name = new_name\n    return model")
